@@ -135,8 +135,12 @@ func judge(id, tier, repo, verif string, cfg Config, p *Prog, loadErr error, t0 
 	if s := os.Getenv("VERIF_SEED"); s != "" {
 		seed, _ = strconv.Atoi(s)
 	}
-	evPath := filepath.Join(verif, "evidence", id+".json")
-	vioDir := filepath.Join(verif, "evidence", "violations")
+	evDir := filepath.Join(verif, "evidence")
+	if d := os.Getenv("CLOAKCHECK_EVIDENCE_DIR"); d != "" {
+		evDir = d // used when the checker validates itself on scratch copies: never overwrite the real evidence
+	}
+	evPath := filepath.Join(evDir, id+".json")
+	vioDir := filepath.Join(evDir, "violations")
 	known, ferr := loadFindings(verif)
 	if ferr != nil {
 		fmt.Println("cannot read known findings:", ferr)
